@@ -141,6 +141,8 @@ func init() {
 		c02xBatch(c)
 		c02xEdge(c)
 		c02xVarint(c)
+		c02xDuplicates(c)
+		c02xCoverage(c)
 		nArch := 8 * c.Scale
 		for a := 0; a < nArch; a++ {
 			r := c.R.Fork()
@@ -690,4 +692,188 @@ func c02xScanCase(c *Ctx, r *RNG, kind uint64, o rOpts, f []byte, tabFrom []byte
 	if mode != srcModeDataErr && kind != 2 && len(f) <= 4096 {
 		one(srcModeDataErr)
 	}
+}
+
+// ---- round 5: duplicate blocks; entry points found unexecuted by bin/coverage ---------------------------
+
+// c02xDuplicates: archives in which the same (CID, data) section occurs two or three times (legal), with
+// every prefix and every single-byte flip (3 masks) of the digests and data of EVERY copy -- so cuts and
+// flips land in the later copies -- through full inspection (kind c02inspect), the three scanning
+// readers, SkipNext / mixed walks and the loaders, bare and (inspection, BlockReader) wrapped as CARv2.
+// A reader must not take a later copy on trust because it has verified an earlier one.
+func c02xDuplicates(c *Ctx) {
+	r := c.R.Fork()
+	a := genBlock(r, genOpts{maxData: 24})
+	b := genBlock(r, genOpts{identity: true, maxData: 12})
+	d := Blk{mkCid(1, 0x55, 0x12, -1, []byte("dup")), []byte("dup")}
+	blks := []Blk{a, d, a, b, d, a}
+	if r.Bool() {
+		blks = []Blk{d, a, a, d, b, b, a}
+	}
+	roots := genRoots(r, blks, false)
+	payload := refPayload(roots, blks)
+	lay := payloadLayout(nil, payload, blks, len(refPayload(roots, nil)))
+	orig := blksVal(blks)
+	dpad := uint64(pick(r, []int{0, 1, 7}))
+	v2file := v2Container(payload, dpad, nil)
+	v2base := 51 + int(dpad)
+	o := defaultROpts
+	io := iOpts{false, o.maxH, o.maxS}
+	texp := func(base, k, fileLen int) Val {
+		e := c02xSkipExpect(orig, lay, base, k, fileLen).(VL)
+		return VL{e[0], e[1], e[2]}
+	}
+	for k := 0; k <= len(payload); k++ {
+		c02xEmitInspect(c, io, payload[:k], texp(0, k, len(payload)), true)
+		for _, kind := range []uint64{0, 1, 2} {
+			c02xScanCase(c, r, kind, o, payload[:k], nil, texp(0, k, len(payload)), true)
+		}
+		c.Count("input:dup-prefix")
+	}
+	for k := 0; k <= len(v2file); k++ {
+		c02xEmitInspect(c, io, v2file[:k], texp(v2base, k, len(v2file)), true)
+		c02xScanCase(c, r, 0, o, v2file[:k], nil, texp(v2base, k, len(v2file)), true)
+		c.Count("input:dup-prefix-v2")
+	}
+	for i := range blks {
+		for pos := lay.digStart[i]; pos < lay.secEnd[i]; pos++ {
+			for _, mask := range []byte{0x01, 0x80, 0xff} {
+				g := append([]byte(nil), payload...)
+				g[pos] ^= mask
+				expect := VL{VT("corrupt"), orig, VN(uint64(i))}
+				c02xEmitInspect(c, io, g, expect, true)
+				for _, kind := range []uint64{0, 1, 2} {
+					c02xScanCase(c, r, kind, o, g, nil, expect, true)
+				}
+				gv2 := v2Container(g, dpad, nil)
+				c02xEmitInspect(c, io, gv2, expect, true)
+				c02xScanCase(c, r, 0, o, gv2, nil, expect, true)
+				c.Count("input:dup-corrupt")
+			}
+		}
+	}
+	c02xSkipCases(c, r, payload, 0, lay, blks, orig, o, 2)
+	c02xSkipCases(c, r, v2file, v2base, lay, blks, orig, o, 1)
+	c02xLoaderCases(c, r, payload, lay, blks, orig, true)
+}
+
+// c02xCoverage: legacy util.ReadCid on CIDs of every flavour followed by anything, their prefixes,
+// non-minimal version/codec varints and garbage; carv1.ReadHeaderAt through pure ReaderAts and through
+// readers positioned anywhere (also beyond the end); the internal offsetReadSeeker under random scripts.
+// (carv1.NewCarReaderWithZeroLengthSectionAsEOF is reached by every "scan" case of reader kind 1 whose
+// options are exactly that constructor's: ZeroLengthSectionAsEOF with the default limits.)
+func c02xCoverage(c *Ctx) {
+	r := c.R.Fork()
+	emitCid := func(buf []byte, expect Val) {
+		// ReadMultihash allocates the declared digest length before reading: keep declared lengths small
+		if c02xDeclaredDigest(buf) > 1<<20 {
+			return
+		}
+		c.Emit("c02readcid", VL{VB(buf), expect}, c02xReadCidImpl(buf), len(buf) > 0)
+		c.Count("input:readcid")
+	}
+	n := 60 * c.Scale
+	for i := 0; i < n; i++ {
+		blk := genBlock(r, genOpts{identity: true, maxData: 40})
+		cb := blk.Cid.Bytes()
+		tail := r.Bytes(r.Intn(6))
+		expect := Val(VL{VT("cid"), VB(cb)})
+		emitCid(append(append([]byte(nil), cb...), tail...), expect)
+		for k := 0; k < len(cb); k++ { // every proper prefix
+			emitCid(cb[:k], VL{VT("none")})
+		}
+		if blk.Cid.Version() == 1 {
+			// non-minimal version / codec varints (encoding/binary accepts them; the CID is re-encoded)
+			g := append([]byte{0x81, 0x00}, cb[1:]...)
+			emitCid(g, VL{VT("none")})
+			// a flipped byte anywhere
+			g2 := append([]byte(nil), cb...)
+			g2[r.Intn(len(g2))] ^= pick(r, []byte{0x01, 0x80, 0xff})
+			emitCid(g2, VL{VT("none")})
+		}
+		emitCid(r.Bytes(r.Intn(12)), VL{VT("none")})
+	}
+	// ReadHeaderAt
+	for i := 0; i < 6*c.Scale; i++ {
+		blks := genBlocks(r, 1+r.Intn(2), genOpts{maxData: 10})
+		roots := genRoots(r, blks, true)
+		payload := refPayload(roots, blks)
+		pre := r.Bytes(r.Intn(5))
+		file := append(append([]byte(nil), pre...), payload...)
+		emitAt := func(isReader bool, pos int, maxH uint64, f []byte) {
+			_, hdrs := scanTables(f[min(pos, len(f)):])
+			if !isReader {
+				_, hdrs = scanTables(f)
+			}
+			in := VL{vbool(isReader), VN(uint64(pos)), VN(maxH), VB(f), hdrs}
+			c.Emit("c02hdrat", in, c02xHdrAtImpl(isReader, uint64(pos), maxH, f), true)
+			c.Count("input:readheaderat")
+		}
+		hl := len(refPayload(roots, nil))
+		for _, maxH := range []uint64{defaultROpts.maxH, uint64(hl - 1), uint64(hl - 2)} {
+			emitAt(true, len(pre), maxH, file)   // positioned at the header
+			emitAt(false, 0, maxH, payload)      // pure ReaderAt: from the start
+		}
+		emitAt(false, 0, defaultROpts.maxH, file) // pure ReaderAt over bytes that do not start with the header
+		for t := 0; t < 8; t++ {
+			emitAt(true, r.Intn(len(file)+4), defaultROpts.maxH, file) // anywhere, also beyond the end
+		}
+		for k := 0; k < hl; k += 1 + r.Intn(3) { // header cut short
+			emitAt(true, 0, defaultROpts.maxH, payload[:k])
+			emitAt(false, 0, defaultROpts.maxH, payload[:k])
+		}
+	}
+	// offsetReadSeeker
+	for i := 0; i < 40*c.Scale; i++ {
+		data := r.Bytes(r.Intn(40))
+		base := uint64(r.Intn(len(data) + 4))
+		ops := VL{}
+		for j := 0; j < 1+r.Intn(8); j++ {
+			switch r.Intn(8) {
+			case 0, 1:
+				ops = append(ops, VL{VT("read"), VN(uint64(1 + r.Intn(12)))})
+			case 2:
+				ops = append(ops, VL{VT("byte")})
+			case 3:
+				ops = append(ops, VL{VT("at"), VN(uint64(1 + r.Intn(12))), VN(uint64(r.Intn(44)))})
+			case 4:
+				ops = append(ops, VL{VT("start"), VN(uint64(r.Intn(44)))})
+			case 5:
+				ops = append(ops, VL{VT("fwd"), VN(uint64(r.Intn(20)))})
+			case 6:
+				ops = append(ops, VL{VT("back"), VN(uint64(r.Intn(50)))})
+			default:
+				ops = append(ops, VL{VT("end")})
+			}
+		}
+		c.Emit("c02ors", VL{VB(data), VN(base), ops}, c02xOrsImpl(data, base, ops), len(ops) > 1)
+		c.Count("input:offsetreadseeker")
+	}
+}
+
+// c02xDeclaredDigest: the digest length a v1 CID at the front of buf declares (0 if it does not get that far).
+func c02xDeclaredDigest(buf []byte) uint64 {
+	p := buf
+	for i := 0; i < 4; i++ {
+		var x uint64
+		var s uint
+		j := 0
+		for {
+			if j >= len(p) || j >= 10 {
+				return 0
+			}
+			b := p[j]
+			j++
+			x |= uint64(b&0x7f) << s
+			if b < 0x80 {
+				break
+			}
+			s += 7
+		}
+		p = p[j:]
+		if i == 3 {
+			return x
+		}
+	}
+	return 0
 }
